@@ -7,11 +7,12 @@ import sys, os, subprocess, tempfile, shutil, json, re
 from concurrent.futures import ThreadPoolExecutor
 root = os.path.dirname(os.path.dirname(os.path.abspath(__file__)))
 args = sys.argv[1:]
-nonorm = False; props = 'all'; jobs = 6; out = None; patches = []
+showu = False; nonorm = False; props = 'all'; jobs = 6; out = None; patches = []
 i = 0
 while i < len(args):
     a = args[i]
     if a == '--no-normalise': nonorm = True
+    elif a == '--show-undecided': showu = True
     elif a == '--props': i += 1; props = args[i]
     elif a == '-j': i += 1; jobs = int(args[i])
     elif a == '--out': i += 1; out = args[i]
@@ -52,6 +53,8 @@ with ThreadPoolExecutor(jobs) as ex:
         oth = [l for l in res if not l.startswith('MUTANT-')]
         print(f'{short}: violations={len(viol)} undecided={len(und)}' + (' ' + ' | '.join(oth)[:300] if oth else ''))
         for l in viol: print('    ' + l[14:260])
+        if showu:
+            for l in und: print('    U ' + l[17:300])
         results[short] = {'violations': viol, 'undecided': und, 'other': oth}
 if out:
     json.dump(results, open(out, 'w'), indent=1)
